@@ -1,3 +1,4 @@
+use serde::ser::SerializeMap;
 use serde::{Deserialize, Deserializer, Serializer};
 
 pub fn to_hex<S>(vec: &[u8], serializer: S) -> Result<S::Ok, S::Error>
@@ -16,6 +17,31 @@ where
     let buf = String::deserialize(deserialiser)?;
 
     hex::decode(buf).map_err(serde::de::Error::custom)
+}
+
+/// Coinbase data is written as { "coinbase": hex } so that the untagged ScriptBit can tell it from a data push.
+pub fn to_coinbase_hex<S>(vec: &[u8], serializer: S) -> Result<S::Ok, S::Error>
+where
+    S: Serializer,
+{
+    let mut map = serializer.serialize_map(Some(1))?;
+    map.serialize_entry("coinbase", &hex::encode(vec))?;
+    map.end()
+}
+
+pub fn from_coinbase_hex<'de, D>(deserialiser: D) -> Result<Vec<u8>, D::Error>
+where
+    D: Deserializer<'de>,
+{
+    #[derive(Deserialize)]
+    #[serde(deny_unknown_fields)]
+    struct CoinbaseData {
+        coinbase: String,
+    }
+
+    let data = CoinbaseData::deserialize(deserialiser)?;
+
+    hex::decode(data.coinbase).map_err(serde::de::Error::custom)
 }
 
 pub fn to_reverse_hex<S>(vec: &[u8], serializer: S) -> Result<S::Ok, S::Error>
